@@ -268,7 +268,7 @@ impl Prop for C14 {
         "generated documents with ground-truth byte ranges (re-encoded token by token into any of the 36 encodings) x write schedules x handler sets that only observe or that also rewrite earlier content: every element / end tag / comment / doctype location and every attribute name / value location is compared with the ground truth (RefAttr for attributes), text chunk ranges must be contiguous, inside their node and cover it, successive tokens never overlap or go backwards; in the rewriting handler sets every token is modified several times and its locations (incl. attribute name / value locations: unchanged when untouched, None once set) are read again afterwards; plus a self-consistency monitor on tag soup; non-trivial: a token that started in an earlier write than it ended (or text split by a write) was checked; distinct = hash(document, encoding, schedule, handler set)".into()
     }
     fn run_shard(&self, ctx: &mut Ctx<'_>) {
-        let n = ctx.budget(150_000, 4_000_000);
+        let n = ctx.budget(150_000, 30_000_000);
         let encs = gen::ascii_compatible_encodings();
         for i in 0..n {
             if i % 32 == 0 && ctx.should_stop() {
